@@ -143,9 +143,11 @@ def run(ctx):
     corpus.setdefault(struct.pack(">H", B.seq_t) + int_bytes(B, 2 ** 14) + struct.pack(">H", B.null_t) * (2 ** 14), "wide-nulls")
     for depth in (50, 900, 3000, 20000) if not ctx.quick else (50, 900, 3000):
         corpus.setdefault((struct.pack(">H", B.seq_t) + int_bytes(B, 1)) * depth + struct.pack(">H", B.null_t), "deep-nesting")
-    for cls in list(registered)[:12]:
-        for n in (0, 1, 3, 255, 2 ** 62, -1):
-            corpus.setdefault(struct.pack(">H", cls.type_id) + int_bytes(B, n) + struct.pack(">H", B.null_t) * 3, "object-fields")
+    for cls in sorted(registered, key=lambda c: c.type_id):
+        nf = len(getattr(cls, "_fields", ()) or ())
+        for n in (0, 1, nf, nf + 1, 255, 2 ** 31 - 1, 2 ** 62, -1):
+            # every field the type really has is present and well formed; the announced count may be far larger
+            corpus.setdefault(struct.pack(">H", cls.type_id) + int_bytes(B, n) + struct.pack(">H", B.null_t) * (nf + 2), "object-fields")
     for _ in range(600 if ctx.quick else 6000):
         corpus.setdefault(bytes(rnd.getrandbits(8) for _ in range(rnd.choice([0, 1, 2, 3, 5, 9, 40, 300]))), "random")
         corpus.setdefault(struct.pack(">H", rnd.choice([B.seq_t, B.map_t, B.string_t, B.int8_t, 130])) + bytes(rnd.getrandbits(8) for _ in range(rnd.randint(0, 30))), "random-typed")
